@@ -55,6 +55,22 @@ def expected_slices(plain):
 
 
 def do_case(ctx, case):
+    """one operation on one individual, or {"kind": "twins", "members": [case, ...]}: several such cases run
+    consecutively in this one process (hash-collision twins: values -1.0 / -2.0 / int -1, 0.0 / -0.0)"""
+    if case["kind"] == "twins":
+        ctx.tally(f"twins:{case.get('how', '?')}")
+        before, out = len(ctx.violations), []
+        for m in case["members"]:
+            g = do_single_case(ctx, m)
+            out += [] if g is None else g if isinstance(g, list) else [g]
+        for v in ctx.violations[before:]:
+            v["what"] = f"with hash-equal twin individuals / value vectors handled consecutively in one process ({case.get('how')}): " + v["what"]
+            v["case"] = case
+        return out
+    return do_single_case(ctx, case)
+
+
+def do_single_case(ctx, case):
     from queasars.minimum_eigensolvers.evqe.evolutionary_algorithm.individual import EVQEIndividual
 
     kind, ind = case["kind"], case["ind"]
@@ -182,7 +198,7 @@ def gen_individual(rng):
 
     def value():
         counter[0] += 1
-        return rng.choice([0.0, 0.5, -1.25]) if rng.random() < 0.15 else round(rng.uniform(-6, 6), 5) + counter[0] * 1e-3
+        return rng.choice([0.0, 0.5, -1.25, -1.0, -2.0]) if rng.random() < 0.2 else round(rng.uniform(-6, 6), 5) + counter[0] * 1e-3
 
     if r < 0.25:
         # through the implementation's own generator (1 qubit: layers alternate rotation / identity)
@@ -219,6 +235,30 @@ def gen_case(rng):
     return {"kind": kind, "ind": ind, "n_layers": rng.choice([1, 1, 2, 2, 3, 4, 0, -1]), "randomize": rng.random() < 0.35, "seed": rng.randrange(2**31)}
 
 
+TWIN_VALUES = {"-1.0/-2.0": (-1.0, -2.0), "-2.0/int -1/-1.0": (-2.0, -1, -1.0), "0.0/-0.0": (0.0, -0.0)}
+
+
+def gen_twins(rng, how):
+    """the same operation on members that are identical except for hash-equal values, either in the individual's
+    parameter values or in the new value vector of change_parameter_values / change_layer_parameter_values"""
+    while True:
+        base = gen_case(rng)
+        where = rng.choice(["values", "vs"])
+        if base["kind"] == "twins" or (where == "vs" and not base.get("vs")) or (where == "values" and not base["ind"]["values"]):
+            continue
+        break
+    vec = base["ind"]["values"] if where == "values" else base["vs"]
+    pos = sorted(rng.sample(range(len(vec)), 1 if len(vec) == 1 else rng.choice([1, 2])))
+    members = []
+    for tv in TWIN_VALUES[how]:
+        m = json.loads(json.dumps(base))
+        tgt = m["ind"]["values"] if where == "values" else m["vs"]
+        for q in pos:
+            tgt[q] = tv
+        members.append(m)
+    return {"kind": "twins", "how": f"{how} in {where} of {base['kind']}", "members": members}
+
+
 def fixed_cases():
     """F-C16's witness and its neighbours: 1 qubit, parameter counts [3,0,3,0]"""
     ind = {"n": 1, "layers": [{"n": 1, "gates": [["R", 0]]}, {"n": 1, "gates": [["I", 0]]}, {"n": 1, "gates": [["R", 0]]}, {"n": 1, "gates": [["I", 0]]}], "values": [1.0, 2.0, 3.0, 4.0, 5.0, 6.0]}
@@ -239,7 +279,7 @@ def run(ctx):
     translate.check_link(ctx, "C16")
     ctx.rule = ("random valid individuals (1-6 qubits, 1-6 layers, 30% parameterless layers, a quarter from the implementation's own random_individual) x one operation: "
                 "remove_layers k in [-1, L+1]; change_parameter_values with the right count or off by 1/3; change_layer_parameter_values with layer ids in [-2L, 2L) and right/wrong counts (+ the getter); "
-                "add_random_layers with n_layers in {-1,0,1..4}, zero or random initialisation, followed by remove_layers of the same count; distinct = distinct (individual, operation, arguments); all cases non-trivial")
+                "add_random_layers with n_layers in {-1,0,1..4}, zero or random initialisation, followed by remove_layers of the same count; values include -1.0 / -2.0 (equal hash); hash-collision twins: the same operation on 2-3 individuals / value vectors identical except for -1.0 / -2.0 / int -1 or 0.0 / -0.0, consecutively in one process; distinct = distinct (individual, operation, arguments); all cases non-trivial")
     if not rnglog.selftest():
         ctx.violation("correspondence", "rnglog-selftest", "the logging Random does not reproduce random.Random on this interpreter (vlib/rnglog.py)")
     cases = []
@@ -249,10 +289,13 @@ def run(ctx):
     cases += fixed_cases()
     for _ in range(ctx.n(1500, 12000)):
         cases.append(gen_case(ctx.rng))
+    for how in TWIN_VALUES:
+        for _ in range(ctx.n(12, 100)):
+            cases.append(gen_twins(ctx.rng, how))
     glits, kept = [], []
     for c in cases:
         g = do_case(ctx, c)
-        ctx.case(c, nontrivial=True, sample=c if c["kind"] in ("remove", "change_layer") and len(c["ind"]["layers"]) <= 2 else None)
+        ctx.case(c, nontrivial=True, sample=c if c["kind"] in ("remove", "change_layer") and len(c["ind"]["layers"]) <= 2 else None)  # twins: never a sample
         for gg in ([] if g is None else g if isinstance(g, list) else [g]):
             glits.append(gg)
             kept.append(c)
